@@ -128,6 +128,7 @@ type SimNode struct {
 	// the node's database refused at least one write (injected transient error)
 	storeErrSeen bool
 	maintNext    bool
+	wire         *wireEnd
 	maintenance  bool
 	ownScanned   int
 	ownPayload   map[string]int
@@ -177,6 +178,10 @@ type Cluster struct {
 	byAddr map[string]*SimNode
 	byPub  map[string]*SimNode
 	byPath map[string]*SimNode
+	// wire mode: real NetworkTransport endpoints by address
+	wires      map[string]*wireEnd
+	anonWire   *wireEnd
+	wirePanics []string
 
 	net *Network
 
@@ -288,6 +293,7 @@ func newCluster(t *testing.T, cfg *RunConfig, seed uint64) *Cluster {
 		byAddr:      map[string]*SimNode{},
 		byPub:       map[string]*SimNode{},
 		byPath:      map[string]*SimNode{},
+		wires:       map[string]*wireEnd{},
 		chain:       map[int]string{},
 		chainBody:   map[int]*hg.Block{},
 		chainBy:     map[int]*SimNode{},
@@ -490,6 +496,9 @@ func (c *Cluster) startNode(n *SimNode, bootstrap bool) error {
 	n.crashed = false
 	if err := n.node.Init(); err != nil {
 		return err
+	}
+	if !n.maintNext {
+		c.openWire(n)
 	}
 	n.ownScanned = n.core().Seq()
 	// a bootstrapped node that has to re-join first learns its head and sequence
@@ -715,6 +724,7 @@ func (c *Cluster) cleanup() {
 			}()
 		}
 	}
+	c.closeAllWires()
 	time.Sleep(time.Duration(c.cfg.JoinTimeoutMs+1000) * 3 * time.Millisecond)
 	synctest.Wait()
 	if c.workdir != "" {
